@@ -14,6 +14,8 @@ import (
 	"fmt"
 	"strings"
 	"time"
+	"unicode"
+	"unicode/utf8"
 
 	"github.com/krotik/ecal/interpreter"
 	"github.com/krotik/ecal/parser"
@@ -115,5 +117,59 @@ func c18BreakGen(g *Gen, n int) {
 		}
 		g.Count("break point")
 		g.Emit(fmt.Sprintf("B %s %d", hx(sb.String()), off))
+	}
+}
+
+// ---------------------------------------------------------------- code point sweep (case kind U)
+
+// c18RawUTF8 encodes cp by the bare UTF-8 bit layout (also surrogates and values above U+10FFFF,
+// which DecodeRune must reject).
+func c18RawUTF8(cp int) []byte {
+	switch {
+	case cp < 0x80:
+		return []byte{byte(cp)}
+	case cp < 0x800:
+		return []byte{byte(0xC0 + cp/64), byte(0x80 + cp%64)}
+	case cp < 0x10000:
+		return []byte{byte(0xE0 + cp/4096), byte(0x80 + cp/64%64), byte(0x80 + cp%64)}
+	}
+	return []byte{byte(0xF0 + cp/262144), byte(0x80 + cp/4096%64), byte(0x80 + cp/64%64), byte(0x80 + cp%64)}
+}
+
+// c18Sweep: for every code point in [lo,hi) two hex digits: bit 1 unicode.IsSpace, 2 IsControl,
+// 4 IsNumber, 8 utf8.DecodeRune of its raw encoding gives it back with the full width; then the
+// width DecodeRune reports. Removes the trust in the model's hand-copied tables.
+func c18Sweep(lo, hi int) string {
+	var sb strings.Builder
+	for cp := lo; cp < hi; cp++ {
+		bits := 0
+		r := rune(cp)
+		if unicode.IsSpace(r) {
+			bits |= 1
+		}
+		if unicode.IsControl(r) {
+			bits |= 2
+		}
+		if unicode.IsNumber(r) {
+			bits |= 4
+		}
+		b := c18RawUTF8(cp)
+		d, w := utf8.DecodeRune(b)
+		if int(d) == cp && w == len(b) {
+			bits |= 8
+		}
+		fmt.Fprintf(&sb, "%x%x", bits, w)
+	}
+	return sb.String()
+}
+
+func c18SweepGen(g *Gen) {
+	hi := 0x3000
+	if g.Thorough() {
+		hi = 0x112000
+	}
+	for lo := 0; lo < hi; lo += 4096 {
+		g.Count("code point sweep")
+		g.Emit(fmt.Sprintf("U %d %d", lo, lo+4096))
 	}
 }
